@@ -110,3 +110,30 @@ void h_pretty(void) {
   VASSERT(r.f1 + 24 == r.f3, "pretty and compact texts differ only by insignificant whitespace (length check)");
   if (cap < len) VWITNESS("truncated"); else VWITNESS("fits");
 }
+
+/* ---- C02: a raw value is emitted verbatim (every byte, NUL included); bounded buffer receives the prefix */
+#ifndef RAWN
+#define RAWN 3
+#endif
+void h_ser_raw(void) {
+  uint8_t p[3] = {vin_u8(), vin_u8(), vin_u8()}; uint32_t n = RAWN;   /* concrete length: a symbolic allocation size makes the heap shape symbolic */
+  uint8_t ref[8]; unsigned len = 0; for (unsigned i = 0; i < 3; i++) if (i < n) ref[len++] = p[i];
+  uint32_t cap = vin_u8(); VASSUME(cap <= len + 2);
+  uint8_t buf[16]; memset(buf, G, sizeof buf); struct S_Ser r; memset(&r, 0, sizeof r);
+  w_ser_raw_only(p, n, buf + 4, cap, &r);
+  check_buf(buf, sizeof buf, 4, cap, ref, len, r.f0, r.f1); VWITNESS("any");
+}
+/* ---- C02: custom writer that stops accepting bytes after `room`: count == bytes the sink took == min(room, length) */
+void h_ser_custom(void) {
+  int32_t i = (int32_t)vin_u8() - 128; uint8_t s[2] = {vin_u8(), vin_u8()};
+  uint8_t ref[40]; unsigned len = 0; ref[len++] = '['; len += put_int(ref + len, i); ref[len++] = ','; len += put_str(ref + len, s, 2); ref[len++] = ']';
+  uint32_t room = vin_u8(); VASSUME(room <= len + 2);
+  uint8_t buf[40]; memset(buf, G, sizeof buf); struct S_Ser r; memset(&r, 0, sizeof r);
+  w_ser_custom((uint32_t)i, s, 2, buf + 4, room, &r);
+  unsigned m = len < room ? len : room;
+  VASSERT(r.f1 == len, "measureJson == length of the text");
+  VASSERT(r.f2 == m, "the sink received exactly the first min(room, length) bytes");
+  VASSERT(r.f0 == r.f2, "the returned count equals the number of bytes produced (accepted by the writer)");
+  for (unsigned k = 0; k < 40; k++) { if (k >= 4 && k < 4 + m) VASSERT(buf[k] == ref[k - 4], "bytes are the prefix of the text"); else VASSERT(buf[k] == G, "nothing else written"); }
+  if (room < len) VWITNESS("short"); else VWITNESS("room");
+}
